@@ -18,7 +18,7 @@ from vlib import refsd, spec as S
 ID = "C09"
 LEVEL = "exploration"
 TECHNIQUE = "channel x channel agreement anchored on a reference interpreter with piecewise-constant parameters; HTTP request/response recorder"
-RULE = ("seeded models (vlib.spec.Gen, depth<=2, lookups/delay/smooth/step) x run specs dt in {1,.5,.25,.1,.2} start in {0,1,2,3,8,9,98} with 3-8 steps; "
+RULE = ("seeded models (vlib.spec.Gen, depth<=2, lookups/delay/smooth/step) x run specs dt in {1,.5,.25,.1,.2} start in {0,1,2,3,8,9,98,-1,-2,-3} with 3-8 steps; "
         "every fourth model is a designed look-back chain (delay / smooth of an element that is NOT among the requested equations, fed by a constant the schedule changes); per-step settings schedules (none / {} / constants / named points at random steps); REST partitions: all compositions of the "
         "run into run-step / run-steps(n) / stream-steps blocks for <=5 steps (thorough) or 3 sampled (quick); every third case runs the REST partitions on a server with a FileAdapter and drops the instance from memory between blocks (the next request restores it from its state file). distinct_nontrivial = "
         "distinct (partition shape, settings kinds, dt) combinations in which a setting changes at least one later value "
@@ -26,10 +26,10 @@ RULE = ("seeded models (vlib.spec.Gen, depth<=2, lookups/delay/smooth/step) x ru
 ASSUMPTIONS = ["a setting passed with step k holds from t_k on (the stock at t_k was integrated with the old value)",
                "run-steps(n) passes the same settings to each of its n steps; stream-steps likewise",
                "JSON numeric keys are compared as floats"]
-REQUIRED = {"multi_scenario_steps": 50, "restores_between_blocks": 10, "lookback_cases": 5, "python_steps": 200, "rest_requests": 300, "cells_compared": 5000, "channel_pairs": 300}
+REQUIRED = {"sessions_reusing_one_settings_dict": 10, "multi_scenario_steps": 50, "restores_between_blocks": 10, "lookback_cases": 5, "python_steps": 200, "rest_requests": 300, "cells_compared": 5000, "channel_pairs": 300}
 BUDGET_S = {"quick": 110, "thorough": 1500}
 
-RUNS = [("0", "1"), ("0", "0.5"), ("1", "0.25"), ("0", "0.1"), ("3", "0.5"), ("2", "0.2"), ("1", "1"), ("0", "0.25"), ("8", "1"), ("9", "0.5"), ("98", "1")]   # incl. session clocks that cross 10 and 100
+RUNS = [("0", "1"), ("0", "0.5"), ("1", "0.25"), ("0", "0.1"), ("3", "0.5"), ("2", "0.2"), ("1", "1"), ("0", "0.25"), ("8", "1"), ("9", "0.5"), ("98", "1"), ("-2", "1"), ("-1", "0.5"), ("-3", "1")]   # incl. session clocks that cross 10 and 100
 
 
 def gen_cases(tier, seed):
@@ -44,9 +44,10 @@ def lookback_spec(rng, dt):
     els = [dict(name="gain", kind="constant", value=rng.choice([1.0, 2.0])), dict(name="base", kind="constant", value=10.0),
            dict(name="lk", kind="converter", eq=["lookup", ["time"], "dummy"]),          # a named lookup: points-only settings reach the chain, too
            dict(name="signal", kind="converter", eq=["bin", "+", ["bin", "*", ["ref", "gain"], ["ref", "base"]], ["bin", "*", ["ref", "lk"], ["num", 4.0]]]),
-           dict(name="echo", kind="converter", eq=["delay", "signal", d, rng.choice([None, 1.5])])]
+           dict(name="echo", kind="converter", eq=["delay", "signal", d, rng.choice([None, 1.5])]),
+           dict(name="gecho", kind="converter", eq=["delay", "gain", d, None])]          # looks back at the changed constant itself
     variant = rng.choice(["delay-only", "delay-only", "smooth", "stock", "all"])      # a stock (also the hidden one of smooth) evaluates its inputs eagerly
-    req = [["echo"], ["echo", "gain"], ["echo", "base"]]
+    req = [["echo"], ["echo", "gain"], ["echo", "base"], ["gecho"], ["gecho", "gain"], ["gecho", "echo"]]
     if variant in ("smooth", "all"):
         els.append(dict(name="sm", kind="converter", eq=["smooth", ["ref", "signal"], rng.choice([2.0, 4.0]), 5.0]))
         req += [["sm"], ["echo", "sm"]]
@@ -169,17 +170,31 @@ def run_case(case):
             b2.begin_session(scenarios=[SC], scenario_managers=[MG], equations=list(req), starttime=start, dt=dt)
             got = {e: {} for e in req}
             flat_seen = []
+            reuse = case["seed"] % 2 == 1          # the caller keeps ONE settings dictionary and updates it in place from step to step
+            shared = {MG: {SC: {}}}
+            if reuse:
+                counters["sessions_reusing_one_settings_dict"] = 1
             for k in range(n + 1):
                 st = sched.get(k)
-                settings = None if st is None else {MG: {SC: copy.deepcopy(st)}}
+                if reuse and st is not None:
+                    shared[MG][SC].clear()
+                    shared[MG][SC].update(copy.deepcopy(st))
+                    settings = shared
+                else:
+                    settings = None if st is None else {MG: {SC: copy.deepcopy(st)}}
                 r = b2.run_step(settings=settings) if settings is not None else b2.run_step()
                 counters["python_steps"] = counters.get("python_steps", 0) + 1
                 if r is None or "msg" in r:
                     w = dict(kind="session-ended-early", step=k, result=r)
                     break
                 for e in req:
+                    if len(r[MG][SC][e]) != 1 or abs(float(list(r[MG][SC][e])[0]) - times[k]) > 1e-9:
+                        w = dict(kind="step-result-time-stamps", step=k, equation=e, got=[float(x) for x in r[MG][SC][e]], expected=[times[k]])
+                        break
                     for t, v in r[MG][SC][e].items():
                         got[e][float(t)] = float(v)
+                if w:
+                    break
             if w is None:
                 extra = b2.run_step()
                 if extra is None or "msg" not in extra:
@@ -227,6 +242,10 @@ def run_case(case):
                     w = w or cmp_series("REST /run:" + e, {float(t): float(v) for t, v in js[MG][SC]["equations"][e].items()}, times, table0[e], counters)
             allparts = list(compositions(n + 1))
             rng.shuffle(allparts)
+            if start < 0:
+                # the REST begin-session passes no start time, and begin_session documents max(0.0, scenario start): a scenario that
+                # starts before 0 cannot be stepped from its start over REST - not part of this comparison
+                allparts = []
             for part in allparts[:case["parts"]]:
                 if w is not None:
                     break
@@ -365,7 +384,7 @@ def run_case(case):
                         w = w or cmp_series("multi-scenario session %s/%s:%s" % (mg, sc, e), got[(mg, sc)][e], times, tab[e], counters)
         # ---- a scenario whose dt differs from its model's dt (runspecs at scenario level): sessions opened without an
         #      explicit dt, on a bptk that has not run anything yet, must step on the scenario's grid like the batch run does
-        if w is None and case["seed"] % 3 == 0:
+        if w is None and case["seed"] % 3 == 0 and start >= 0:
             half = str(D(sp["run"]["dt"]) / 2)
             sp2 = copy.deepcopy(sp)
             sp2["run"]["dt"] = half
